@@ -518,7 +518,9 @@ pub fn handle_storage_interface_struct<'db>(
         } else if let Some(arg) = has_derive(struct_ast, db, STORE_TRAIT) {
             (arg.as_syntax_node(), vec![StorageInterfaceType::StructSubPointers])
         } else {
-            panic!("Invalid storage interface type.");
+            // E.g. a second `Storage` struct without its attribute in a contract module: the
+            // duplicate definition is reported elsewhere, and nothing is generated for it.
+            return PatchBuilder::new(db, struct_ast);
         };
     let mut builder = PatchBuilder::new_ex(db, &origin);
     let generics = GenericParamsInfo::new(db, struct_ast.generic_params(db));
